@@ -331,7 +331,7 @@ func c04Text(g *c04Goal) string {
 		return g.T
 	case "alt":
 		if g.N >= c04Repeat {
-			return "repeat"
+			return "(repeat, rtick)" // rtick/0: a goal of the host that counts the rounds (it is not an event)
 		}
 		return fmt.Sprintf("between(1, %d, _)", g.N)
 	case "and":
@@ -500,6 +500,16 @@ func (c04) Exec(r *kit.Run) {
 		}
 		panic(struct{ Code int }{7})
 	})
+	// the skeletons are finite except for repeat/0: a query that needs more than 200000 polls of its context, or more than
+	// 5000 rounds of a repeat/0, does not terminate (the second bound does not depend on how often the engine polls)
+	ctx := kit.NewSimCtx(200000, context.Canceled)
+	rounds := 0
+	interp.Register0(engine.NewAtom("rtick"), func(_ *engine.VM, k engine.Cont, env *engine.Env) *engine.Promise {
+		if rounds++; rounds > 5000 {
+			ctx.Fire()
+		}
+		return k(env)
+	})
 	interp.Register0(engine.NewAtom("alloc_pt"), func(_ *engine.VM, k engine.Cont, env *engine.Env) *engine.Promise {
 		out := visit("alloc")
 		logEv("alloc " + out)
@@ -526,7 +536,6 @@ func (c04) Exec(r *kit.Run) {
 		kit.Bug("c04 program does not load: %v\n%s", err, sc.Program)
 	}
 	// the skeletons are finite: a query that needs more than 200000 trampoline steps does not terminate
-	ctx := kit.NewSimCtx(200000, context.Canceled)
 	gotOutcome := ""
 	if sc.ViaExec {
 		fsys := kit.NewSimFS(nil, nil)
